@@ -27,6 +27,11 @@ pub trait U: Sized {
     /// (reversed insertion order, other capacity, fresh hasher state); consumes
     /// the tape exactly like `gen`
     fn mk_alt(t: &mut Tape<'_>, depth: u32) -> Self { Self::mk(t, depth) }
+    /// like `mk` (same tape consumption), but with two parts re-associated
+    /// (the values of two map keys swapped): what a hash that drops structure
+    /// would confuse with the value `mk` builds from the same tape. May be
+    /// equal to it; the caller filters with `veq`.
+    fn mk_neighbour(_t: &mut Tape<'_>, _depth: u32) -> Option<Self> { None }
 }
 
 fn boundary_u128(t: &mut Tape<'_>, bits: u32) -> u128 {
@@ -467,6 +472,16 @@ impl<K: U + Ord, V: U> U for BTreeMap<K, V> {
         let n = mk_len(t, d).min(6);
         (0..n).map(|_| (K::mk(t, d1(d)), V::mk(t, d1(d)))).collect()
     }
+    fn mk_neighbour(t: &mut Tape<'_>, d: u32) -> Option<Self> {
+        let m = Self::mk(t, d);
+        let mut it = m.into_iter();
+        let (k0, v0) = it.next()?;
+        let (k1, v1) = it.next()?;
+        let mut m2: Self = it.collect();
+        m2.insert(k0, v1);
+        m2.insert(k1, v0);
+        Some(m2)
+    }
     fn veq(&self, o: &Self) -> bool {
         self.len() == o.len() && self.iter().all(|(k, v)| o.get(k).is_some_and(|w| v.veq(w)))
     }
@@ -487,6 +502,16 @@ impl<K: U + Eq + std::hash::Hash, V: U> U for HashMap<K, V> {
             m.entry(k).or_insert(v);
         }
         m
+    }
+    fn mk_neighbour(t: &mut Tape<'_>, d: u32) -> Option<Self> {
+        let m = Self::mk(t, d);
+        let mut it = m.into_iter();
+        let (k0, v0) = it.next()?;
+        let (k1, v1) = it.next()?;
+        let mut m2: Self = it.collect();
+        m2.insert(k0, v1);
+        m2.insert(k1, v0);
+        Some(m2)
     }
     fn veq(&self, o: &Self) -> bool {
         self.len() == o.len() && self.iter().all(|(k, v)| o.get(k).is_some_and(|w| v.veq(w)))
